@@ -218,11 +218,19 @@ def run_case(c):
         m = int(rng.integers(1, min(12, 50 // N) + 1))
         un = em.unit_evolvent(N, m)
         ev = None
+        twin = None
         nb = 0
         for b in range(int(rng.integers(2, 7))):
             lo_l, hi_l, bk = scenario.gen_box(rng, N)
             if ev is None:
-                ev = Evolvent(lo_l, hi_l, N, m) if rng.random() < 0.7 else Evolvent([], [], N, m)
+                if c["i"] % 2:
+                    # two objects built from the caller's own float64 bound arrays: moving the first with SetBounds must leave the second on its box
+                    first_lo, first_hi = np.array(lo_l, dtype=np.double), np.array(hi_l, dtype=np.double)
+                    ev = Evolvent(first_lo, first_hi, N, m)
+                    twin = (Evolvent(first_lo, first_hi, N, m), first_lo.copy(), first_hi.copy())
+                    obs["twin_objects"] = 1
+                else:
+                    ev = Evolvent(lo_l, hi_l, N, m) if rng.random() < 0.7 else Evolvent([], [], N, m)
                 if len(np.atleast_1d(ev.lowerBoundOfFloatVariables)) == 0:
                     ev.SetBounds(lo_l, hi_l)
             else:
@@ -240,6 +248,18 @@ def run_case(c):
                     if len(viol) < 5:
                         viol.append({"mech": "image-not-in-current-box", "x": x, "image": y.tolist(), "expected": ref.tolist(), "lower": lo_l, "upper": hi_l,
                                      "bounds_set": nb, "N": N, "m": m})
+        if twin is not None:
+            tev, tlo, thi = twin
+            tside = thi - tlo
+            ttol = 8 * np.spacing(np.maximum(np.maximum(np.abs(tlo), np.abs(thi)), tside))
+            for x in [0.0, 1.0, float(rng.random()), float(rng.random())]:
+                y = tev.GetImage(x)
+                ref = tlo + un.GetImage(x) * tside
+                obs["twin_images"] = obs.get("twin_images", 0) + 1
+                if np.any(np.abs(y - ref) > ttol):
+                    if len(viol) < 5:
+                        viol.append({"mech": "image-not-in-current-box", "x": x, "image": y.tolist(), "expected": ref.tolist(), "lower": tlo.tolist(), "upper": thi.tolist(),
+                                     "what": "a second object built from the same bound arrays, after SetBounds on the first", "N": N, "m": m})
         obs["rebound_objects"] = 1
         return {"violations": viol, "obs": obs, "nontrivial": True, "key": "rebound|%d" % c["i"],
                 "sample": {"kind": "SetBounds sequence on one object", "N": N, "m": m, "boxes": nb} if c["i"] < 2 else None}
@@ -290,6 +310,6 @@ def finalize(obs, tier, stats):
     need_nm = 50
     if obs.get("max_Nm", 0) < need_nm:
         return "windows never reached N*m = 50", extra, viol
-    if not obs.get("end_windows") or not obs.get("x1_checked") or not obs.get("boxes") or not obs.get("n1_images") or not obs.get("rebound_images"):
+    if not obs.get("end_windows") or not obs.get("x1_checked") or not obs.get("boxes") or not obs.get("n1_images") or not obs.get("rebound_images") or not obs.get("twin_images"):
         return "a probe class was never exercised", extra, viol
     return None, extra, viol
